@@ -490,7 +490,7 @@ func main() {
 
 // treeOf lists the current tree in the specification's vocabulary (for the trace's reset line).
 func treeOf(root string) []map[string]any {
-	var out []map[string]any
+	out := []map[string]any{}
 	s, err := snap(root)
 	if err != nil {
 		vhlib.Fatal("%v", err)
